@@ -414,10 +414,23 @@ def generator_obs(ck, a, obs):
         sd = rng.randrange(10 ** 6)
         random.seed(sd)
         np.random.seed(sd)
+        # ... drawn uniformly (dist=None) and from a caller's distribution whose tails reach far beyond the box (a
+        # normal around the box's centre, three box widths wide; one Distribution for all coordinates or a list of them)
+        from mystic.math import Distribution
+        mid = [(l + h) / 2.0 for l, h in zip(lo, hi)]
+        wid = [3.0 * (h - l) + 1e-3 for l, h in zip(lo, hi)]
+        dist1 = Distribution(np.random.normal, mid[0], wid[0])
+        distn = [Distribution(np.random.normal, m, w) for m, w in zip(mid, wid)]
+        npd = 5 * npts
         for fn, call in (("samplepts", lambda: samplepts(lo, hi, npts)),
-                         ("random_samples", lambda: random_samples(lo, hi, npts).T.tolist())):
+                         ("random_samples", lambda: random_samples(lo, hi, npts).T.tolist()),
+                         ("samplepts[dist=list]", lambda: samplepts(lo, hi, npd, dist=distn)),
+                         ("random_samples[dist=list]", lambda: random_samples(lo, hi, npd, dist=distn).T.tolist()),
+                         ("random_samples[dist]", lambda: random_samples(lo, hi, npd, dist=dist1).T.tolist())):
+            if "dist" in fn and any(h == l for l, h in zip(lo, hi)):
+                continue        # a continuous distribution cannot hit a zero-width side: random_samples refuses (raises)
             try:
-                obs.append(pts_obs(fn, npts, len(lo), lo, hi, call()))
+                obs.append(pts_obs(fn, npd if "dist" in fn else npts, len(lo), lo, hi, call()))
             except Exception as ex:
                 ck.violation("gen:%s-raised" % fn, {"lo": lo, "hi": hi, "npts": npts, "error": repr(ex)},
                              "%s(%s, %s, %d) raised %r" % (fn, lo, hi, npts, ex))
